@@ -51,6 +51,16 @@ CHECKS = {
    "Complete enumeration of the stated token domains on the real ResultsPage::new / PaginationParams decoding, compared with RefToken (own base64 decoder + serde_json).",
    "trusted: serde_json inside RefToken; duplicate-key tokens unclassified",
    "DESIGN.md section 4/C14"),
+ "C16": ("E3", "model_checking",
+   "stateless exploration of harness-owned event interleavings (connect / partial send / send / release gate / read / close FIN / reset RST) against a real server restarted for every history: every maximal path for 1 client (thorough: 2), every transition of the script graph for 2 (thorough: 3) clients, both task modes; invariants evaluated in every state",
+   "All orders of the external events that the property quantifies over, at quiescent-step granularity, executed on the real HttpServer over loopback TCP with gated handlers and Drop guards; handler board (entered/completed/dropped), responses and a health probe checked after every event; every reported history is re-run twice more.",
+   "interleavings inside tokio/hyper worker threads are not enumerated; HTTP/1.1 over plain TCP; positive observations only (10 s), log lines are sync aids",
+   "DESIGN.md section 4/C16"),
+ "C17": ("E3", "model_checking",
+   "same explorer as C16 plus Shutdown (at any point) and wait_for_shutdown waiters: every maximal path for 1 client, every transition of the script graph for 2 (thorough: every path for 2, transitions for 3), both task modes",
+   "close() must stay pending while a started handler whose client stays (or any detached handler) runs, responses of started handlers are delivered completely, close() returns once all clients left and gates opened, the listening socket is gone (checked in /proc/net/tcp + /proc/self/fd), every waiter (early, and one that starts waiting after shutdown finished) gets the same result.",
+   "as C16; the 'close() has not returned yet' window is 30 ms (quick) / 200 ms (thorough) and can only miss, never false-alarm",
+   "DESIGN.md section 4/C17"),
 }
 
 NOT_YET = {
@@ -90,6 +100,7 @@ def main():
       },
       "engines": [
         {"name": "E1", "path": "harness/src/e1.rs + harness/src/bin/e1.rs", "serves_properties": ["C01","C02","C04","C06"], "kind_free_text": "stateless explicit exploration of registration histories on the real ApiDescription/HttpRouter"},
+        {"name": "E3", "path": "harness/src/live.rs + harness/src/e3.rs + harness/src/bin/e3.rs", "serves_properties": ["C16","C17"], "kind_free_text": "live event explorer: real HttpServer on loopback, raw TCP client, gated handlers, in-memory slog drain; stateless replay of every history"},
         {"name": "E2", "path": "harness/src/bin/c03.rs c05.rs ...", "serves_properties": ["C03","C05","C12","C13","C14"], "kind_free_text": "bounded-exhaustive input enumeration against reference functions, on the real public functions"},
       ],
       "checks": checks,
